@@ -57,8 +57,8 @@ def gogoMapGoType (f : FieldD) : String :=
   let alias : FieldD := { f.mapValueField with nullable := f.nullable }
   let vt := gogoGoType alias
   let vt' :=
-    if f.type == "message" then (if alias.isNullableOpt then vt else (vt.dropPrefix "*").toString)
-    else (vt.dropPrefix "*").toString
+    if f.type == "message" then (if alias.isNullableOpt then vt else String.ofList (dropStar vt.toList))
+    else String.ofList (dropStar vt.toList)
   "map[" ++ scalarGoType f.mapKey ++ "]" ++ vt'
 
 def isBuiltinType (t : String) : Bool :=
